@@ -56,7 +56,8 @@ def build_store(case):
     from ioos_qc.streams import PandasStream
 
     n = case["n"]
-    tab = S.table(n)
+    tab = S.table(n, shuffled=case.get("shuffled", False))
+    q = max(n // 4, 1) if n > 8 else 1     # window bounds scale with the table
     cols = {"time": alpha.dt64(tab["time"]), "z": np.array(tab["z"]), "lat": np.array(tab["lat"]), "lon": np.array(tab["lon"])}
     srcs = {}
     for k, sid in enumerate(case["streams"]):
@@ -70,13 +71,13 @@ def build_store(case):
     if case["ctx"] == "none":
         ctxs = [dict(streams=streams)]
     elif case["ctx"] == "partial":
-        ctxs = [dict(start=S.T0 + S.DAY, end=S.T0 + 3 * S.DAY, streams=streams)]
+        ctxs = [dict(start=S.T0 + q * S.DAY, end=S.T0 + 3 * q * S.DAY, streams=streams)]
     elif case["ctx"] == "partial_then_all":
         # a windowed context followed by one that covers every row (which flag wins on the overlap is not judged here:
         # result columns are compared with the collected results; data and axes must equal the source on every row)
-        ctxs = [dict(start=S.T0 + S.DAY, end=S.T0 + 3 * S.DAY, streams=streams), dict(start=S.T0 - 9 * S.DAY, end=None, streams=streams)]
+        ctxs = [dict(start=S.T0 + q * S.DAY, end=S.T0 + 3 * q * S.DAY, streams=streams), dict(start=S.T0 - 9 * S.DAY, end=None, streams=streams)]
     else:
-        ctxs = [dict(start=None, end=S.T0 + 2 * S.DAY, streams=streams), dict(start=S.T0 + 3 * S.DAY, end=None, streams=streams)]
+        ctxs = [dict(start=None, end=S.T0 + 2 * q * S.DAY, streams=streams), dict(start=S.T0 + 3 * q * S.DAY, end=None, streams=streams)]
     cfg = Config(S.make_config(ctxs))
     store = PandasStore(PandasStream(df).run(cfg))
     masks = [S.ref_mask(tab["time"], c.get("start"), c.get("end")) for c in ctxs]
@@ -261,6 +262,12 @@ def tasks(tier):
             ts.append(("store", n, ss, tests))
     for ss in (["v1"], ["2x", "a b"]):
         ts.append(("store", 30, ss, ["gross_range_test", "spike_test"]))
+        ts.append(("store", 300, ss, ["gross_range_test", "spike_test"]))
+        ts.append(("store", 1500, ss, ["gross_range_test"]))
+    # many collected results: 9-17 streams x 2-3 tests
+    for k in (9, 11, 12, 17):
+        ts.append(("store", 6, [f"s{j}" for j in range(k)], ["gross_range_test", "spike_test", "valid_range_test"]))
+        ts.append(("store", 6, [f"s{j}" for j in range(k)], ["gross_range_test", "spike_test"]))
     ts.append(("names", 3 if tier == "quick" else 4))
     return ts
 
@@ -273,6 +280,12 @@ def run_task(task, acc):
             for ctx in CTX_KINDS:
                 for agg in (False, True):
                     svs = save_variants(ss, tests)
+                    if len(ss) > 3 or n > 100:
+                        svs = svs[:4] + [dict(write_data=True, write_axes=True, include=[ss[0]], exclude=None),
+                                         dict(write_data=False, write_axes=False, include=None, exclude=["spike_test"]),
+                                         dict(write_data=False, write_axes=True, include=[ss[-1], "fn:gross_range_test"], exclude=None)]
+                    if n > 100:
+                        yield dict(n=n, streams=ss, tests=tests, ctx=ctx, aggregate=agg, saves=svs, shuffled=True)
                     # one state per (run, save variant group): keep groups small so a replay is short
                     for i in range(0, len(svs), 12):
                         yield dict(n=n, streams=ss, tests=tests, ctx=ctx, aggregate=agg, saves=svs[i:i + 12])
